@@ -4,6 +4,7 @@ import (
 	"flag"
 	"fmt"
 	"os"
+	"regexp"
 	"runtime/debug"
 	"runtime/pprof"
 	"sort"
@@ -37,9 +38,38 @@ func harnessOverlay(verifDir string) map[string][]byte {
 	return harnessFiles(verifDir, "sym")
 }
 
+var unitErrRe = regexp.MustCompile(`zz_verif_(u_\w+\.go):\d+`)
+
 func loadProgram(verifDir string) *symgo.Program {
 	t0 := time.Now()
 	p, err := symgo.Load(repoDir, harnessOverlay(verifDir), "verif", "zombiezen.com/go/commonmark", "zombiezen.com/go/commonmark/format")
+	for try := 0; err != nil && try < 40; try++ {
+		// A unit harness (u_*.go) names unexported identifiers of the library; when the
+		// working tree no longer has them (renamed, new signature) that file is left out
+		// and its bounds are reported as skipped - the public-API harnesses still run.
+		// Errors anywhere else are real load errors.
+		bad := map[string]string{}
+		other := false
+		for _, line := range strings.Split(err.Error(), "\n") {
+			m := unitErrRe.FindStringSubmatch(line)
+			switch {
+			case m != nil:
+				if _, ok := bad[m[1]]; !ok {
+					bad[m[1]] = strings.TrimSpace(line)
+				}
+			case strings.Contains(line, ".go:"):
+				other = true
+			}
+		}
+		if other || len(bad) == 0 {
+			break
+		}
+		for f, why := range bad {
+			droppedUnits[f] = why
+			fmt.Printf("SKIPPED-UNIT %s: does not type-check against the current tree (%s)\n", f, why)
+		}
+		p, err = symgo.Load(repoDir, harnessOverlay(verifDir), "verif", "zombiezen.com/go/commonmark", "zombiezen.com/go/commonmark/format")
+	}
 	if err != nil {
 		fmt.Fprintln(os.Stderr, "LOAD-ERROR:", err)
 		os.Exit(2)
